@@ -579,6 +579,21 @@ def exec_inplace(desc, ctx):
         d, t = max_diff(r_rot(*g1), r_rot(*g2)), rt_tol(horiz(r_mul(lref, rr)))
     ctx.check(d <= t, 'same_value', f'{lk} @= {rk} gives {g1} but {lk} @ {rk} gives {g2} (differ by {d:g}, tol {t:g})',
               left=lk, right=rk)
+    # the same object on both sides: x @= x (and x @ x) is the rotation applied twice
+    if lk in ROT_KINDS:
+        X, xref = mk_rot(lk, desc['a'])
+        want = r_mul(xref, xref)
+        both = X @ X
+        gb = read_mat(both) if lk.endswith('Matrix') else r_rot(*read_ang(both))
+        tol = TOL_ASSOC if lk.endswith('Matrix') else rt_tol(horiz(want))
+        ctx.check(max_diff(gb, want) <= tol, 'self_product',
+                  f'x @ x with x the same {lk}{desc["a"]} differs from the rotation applied twice by {max_diff(gb, want):g}', left=lk)
+        Y = X
+        Y @= X
+        gy = read_mat(Y) if lk.endswith('Matrix') else r_rot(*read_ang(Y))
+        ctx.check(max_diff(gy, want) <= tol, 'self_product_inplace',
+                  f'x @= x with x the same {lk}{desc["a"]} differs from the rotation applied twice by {max_diff(gy, want):g}', left=lk)
+        ctx.label('alias:x@=x')
 
 
 # ------------------------------------------------------------------ rotation sources for roundtrip / inverse
